@@ -2510,3 +2510,134 @@ func ruleClosureRuntime(c *Ctx, r *R) {
 	}
 	r.note("native_closures", n)
 }
+
+func init() {
+	register(&Rule{ID: "FORIN-shadow", Props: []string{"C07", "C01"}, Min: 2,
+		Doc: "G: ES5 12.6.4 - a property of a prototype is not enumerated if it is shadowed by a property of an object nearer in the chain, enumerable or not; hence no name is visited twice. The for-in evaluator walks the chain object by object, so it must keep the set of names seen so far: (a) the callback that runs the body is entered for a name only on the not-yet-seen side of a lookup of that name in a string-keyed set, (b) the name is added to the set, and (c) after each object all of its own names are added through an enumeration that includes the non-enumerable ones (all = true)",
+		Run: ruleForInShadow})
+}
+
+func ruleForInShadow(c *Ctx, r *R) {
+	var fn *ssa.Function
+	for _, f := range c.AllSrcFuncs("") {
+		if ssaFuncName(f) == "(*runtime).cmplEvaluateNodeForInStatement" {
+			fn = f
+		}
+	}
+	if fn == nil {
+		r.undecided("unresolved:for-in", "-", "UNRESOLVED: (*runtime).cmplEvaluateNodeForInStatement")
+		return
+	}
+	// the callbacks handed to enumerate, with the value of the `all` argument
+	type cb struct {
+		lit *ssa.Function
+		all string // "true", "false", "?"
+	}
+	var cbs []cb
+	for _, f := range withAnon(fn) {
+		for _, b := range f.Blocks {
+			for _, ins := range b.Instrs {
+				call, ok := ins.(*ssa.Call)
+				if !ok || call.Call.StaticCallee() == nil || call.Call.StaticCallee().Name() != "enumerate" || len(call.Call.Args) < 3 {
+					continue
+				}
+				all := "?"
+				if k, ok := call.Call.Args[1].(*ssa.Const); ok && k.Value != nil && k.Value.Kind() == constant.Bool {
+					all = fmt.Sprint(constant.BoolVal(k.Value))
+				}
+				var lit *ssa.Function
+				switch v := call.Call.Args[2].(type) {
+				case *ssa.MakeClosure:
+					lit, _ = v.Fn.(*ssa.Function)
+				case *ssa.Function:
+					lit = v
+				}
+				if lit != nil {
+					cbs = append(cbs, cb{lit, all})
+				}
+			}
+		}
+	}
+	if len(cbs) == 0 {
+		r.undecided("unresolved:enumerate", c.Pos(fn.Pos()), "UNRESOLVED: no enumerate callback in the for-in evaluator")
+		return
+	}
+	isSetType := func(t types.Type) bool {
+		mt, ok := t.Underlying().(*types.Map)
+		if !ok {
+			return false
+		}
+		k, ok := mt.Key().Underlying().(*types.Basic)
+		return ok && k.Info()&types.IsString != 0
+	}
+	bodyGuarded, bodySeen, adds, allAdds := false, false, false, false
+	for _, cbk := range cbs {
+		lit := cbk.lit
+		if len(lit.Params) == 0 {
+			continue
+		}
+		name := lit.Params[0]
+		runsBody := false
+		var bodyCall ssa.Instruction
+		for _, b := range lit.Blocks {
+			for _, ins := range b.Instrs {
+				if call, ok := ins.(*ssa.Call); ok && call.Call.StaticCallee() != nil && call.Call.StaticCallee().Name() == "cmplEvaluateNodeStatement" {
+					runsBody = true
+					if bodyCall == nil {
+						bodyCall = ins
+					}
+				}
+			}
+		}
+		updates := false
+		for _, b := range lit.Blocks {
+			for _, ins := range b.Instrs {
+				if mu, ok := ins.(*ssa.MapUpdate); ok && isSetType(mu.Map.Type()) && mu.Key == ssa.Value(name) {
+					updates = true
+				}
+			}
+		}
+		if runsBody {
+			bodySeen = true
+			// a lookup of name whose "found" side does not reach the body
+			for _, b := range lit.Blocks {
+				iff, ok := b.Instrs[len(b.Instrs)-1].(*ssa.If)
+				if !ok {
+					continue
+				}
+				cond, neg := normBool(iff.Cond)
+				lk, ok := cond.(*ssa.Lookup)
+				if !ok {
+					// the comma-ok form: `_, seen := set[name]`
+					if ex, isEx := cond.(*ssa.Extract); isEx && ex.Index == 1 {
+						lk, ok = ex.Tuple.(*ssa.Lookup)
+					}
+				}
+				if !ok || !isSetType(lk.X.Type()) || lk.Index != ssa.Value(name) {
+					continue
+				}
+				seenSide := 0
+				if neg {
+					seenSide = 1
+				}
+				if !reaches(b.Succs[seenSide], bodyCall.Block(), map[*ssa.BasicBlock]bool{b: true}) && b.Dominates(bodyCall.Block()) {
+					bodyGuarded = true
+				}
+			}
+			if updates {
+				adds = true
+			}
+		} else if updates && cbk.all == "true" {
+			allAdds = true
+		}
+	}
+	site := c.Pos(fn.Pos())
+	if !bodySeen {
+		r.undecided("unresolved:body", site, "UNRESOLVED: no enumerate callback evaluates the loop body")
+		return
+	}
+	r.check(bodyGuarded && adds, "visited-once", site, "the body runs for a name only when it is not in the set of names seen, and the name is then added",
+		"the for-in evaluator runs the body for every enumerable name of every object of the prototype chain without consulting a set of names already seen: a name that is enumerable on the object and on its prototype is visited twice (`function P(){}; P.prototype.a = 1; o = new P(); o.a = 2; for (k in o)` yields a, a)")
+	r.check(allAdds, "shadowed-by-non-enumerable", site, "after each object all of its own names, enumerable or not, are added to the set",
+		"the for-in evaluator never records the non-enumerable own names of the objects it has passed: a prototype's enumerable property that is shadowed by a non-enumerable own property is visited although 12.6.4 hides it")
+}
